@@ -4,7 +4,7 @@ PROPS = {
     "C09": dict(
         engines=["core"], props_file="Props/C09.v", checkers=["Oracles/CoreC09.v"],
         checker_fns={"core": "Oracles.CoreC09:c09_check_all"},
-        variants=["reserve", "reserve", "gang", "", "reserve", "recover"],
+        variants=["reserve", "preemptdeep", "gangdeep", "", "reserve", "recover"],
         coq_scan=["Core/Reserve.v", "Core/ReserveLemmas.v", "Core/ReserveProofs.v", "Core/ReserveProofs2.v",
                   "Oracles/CoreC09.v", "Props/C09.v", "Core/Obs.v", "Base"],
         level="proof",
